@@ -146,6 +146,7 @@ Definition is_ok (t : term) : bool := term_eqb t (TL [TS "ok"]).
 
 (* cases (see harness/go/ledger/eval/zz_verif_c24_test.go):
    (ff kind perByte noteLen maxNote hbDiscount singleton sigc progBytes basicLimit argBytes maxArg FACTOR)
+   (cg paid usage minFee RESULT)
    (gf tag minFee perByte lsigMax ((factor fee lsigLen) ...) (usage paid RESULT))
    (po tag enabled pct hdrFees stateFees bonus sink sinkMin payout propZero generate propClosed
        unit level sinkStatus sinkBase propStatus propAlgos propBase (PP VP PF))
@@ -167,6 +168,12 @@ Definition check (t : term) : term :=
                   (negb (Z.to_N obs =? micro)) (tn m)
       | _, _, _ => v_parse
       end
+  | TL [TS "cg"; TZ paid; TZ usage; TZ minFee; res] =>
+      if negb (nn paid && nn usage && nn minFee) then v_parse else
+      let p := Z.to_N paid in let u := Z.to_N usage in let mf := Z.to_N minFee in
+      let m := t_gf (check_group_fees p u mf) in
+      verdict (Bool.eqb (is_ok res) (spec_accepts p u mf)) (term_eqb res m)
+              (negb (mf =? 0) && negb (u =? 0)) m
   | TL [TS "gf"; TS _; TZ minFee; TZ perByte; TZ lsigMax; TL txs; TL [TZ usage; TZ paid; res]] =>
       match map_opt parse_gtx txs with
       | None => v_parse
